@@ -373,22 +373,27 @@ def make_exc(name, msg):
     return EXC_TYPES.get(name or "RuntimeError", RuntimeError)(msg)
 
 
-class FaultPlanBehaviour(RandomBehaviour):
+class FaultPlanBehaviour(AgentBehaviour):
     """Compliant random behaviour with ONE simulator failure (C14 families).
     plan = {"sid", "req": "step"|"get_data"|"setup_done", "k", "kind"}, kind in
       eof / reset     : the connection is closed / reset while the request is outstanding (remote)
       eof_idle        : the simulator answers the request and then dies (remote, no request outstanding)
       remote_exception: the remote handler raises; the failure is reported over the connection
-      raise           : an in-process simulator raises"""
+      raise           : an in-process simulator raises
+    plan["forwarded"]: the failing request is a get_data that mosaik passes on FOR ANOTHER simulator (an agent's asynchronous
+    get_data during its step), not one of the scheduler's own; agents = the agents of AgentBehaviour (they issue those requests)."""
 
-    def __init__(self, seed, plan, **kw):
-        super().__init__(seed, **kw)
+    def __init__(self, seed, plan, agents=None, **kw):
+        super().__init__(seed, agents, (), **kw)
         self.plan = plan
 
     def reply(self, ctx, p):
         rep = super().reply(ctx, p)
         pl = self.plan
-        if p.sid == pl["sid"] and p.kind == pl["req"] and p.k == pl["k"]:
+        if pl.get("forwarded") and (not getattr(ctx, "in_async_call", None) or getattr(self, "fired", False)):
+            return rep
+        if p.sid == pl["sid"] and p.kind == pl["req"] and (p.k == pl["k"] or (pl.get("forwarded") and p.k >= pl["k"])):
+            self.fired = bool(pl.get("forwarded"))
             if pl["kind"] in ("eof", "reset", "eof_idle"):
                 rep.fault = pl["kind"]
             else:
